@@ -13,7 +13,11 @@ for histories that fit one search batch (walk the source ancestry of the
 requested revision, drop everything that is a source-ancestor of a revision the
 target already has; `find_ghosts=True`: everything in the source ancestry the
 target lacks); `fetch` copies revision records, inventories and the texts of the
-entries that differ from every inventory of the boundary parents.
+entries that differ from every inventory of the excluded boundary parents (the
+exclusion as found at the pinned commit or as repaired by the fix: commit - the
+harness probes which one the tree implements), and, for targets that support
+external lookups, the inventories of parents that are not revisions of the
+target (StreamSink's request for missing parent inventories).
 
 T2: generated histories are built in two "home" repositories of the source
 format with BranchBuilder (merges, ghost parents that exist nowhere, ghost
@@ -714,6 +718,18 @@ def do_fetch(ctx, W, case, src_name, tgt_name, rev, find_ghosts, mode, batch):
                           % (key, want[:80], got[:80]), family=fam)
                         corrupt = corrupt or fam
                     elif e[1] == "file" and e[5] is not None and hashlib.sha1(got).hexdigest().encode() != e[5]:
+                        spec = W.spec_text.get(key)
+                        if want == got and spec is not None and key not in reported and \
+                                classify_corruption(fmt_s, spec, got):
+                            # the SOURCE already holds wrong bytes although no fetch stored them: its own autopack
+                            # regrouped the texts with the same compressor (histories of >= 10 commits)
+                            reported.add(key)
+                            fam = classify_corruption(fmt_s, spec, got)
+                            V("text %r held by the source differs from what was committed (%r, committed %r): damaged when "
+                              "the source repacked itself" % (key, got[:60], spec[:60]), family=fam)
+                            corrupt = corrupt or fam
+                            W.tainted[src_name] = fam
+                            continue
                         if want == got and (W.tainted.get(src_name) or W.tainted.get(tgt_name)):
                             # the source itself holds these bytes: damage done (and reported) by an earlier fetch
                             ctx.count("sha1-mismatch-ignored:inherited-from-a-damaged-repository")
@@ -850,6 +866,7 @@ def run_scenario(ctx, key, stop_at=None):
     W.fmt = {"A": fmt_s, "B": fmt_s, "T": fmt_t}
     W.server = None
     W.tainted = {}
+    W.spec_text = {}
     batch = []
     try:
         NUL_FAMILY[0] = rng.random() < 0.4
@@ -870,6 +887,10 @@ def run_scenario(ctx, key, stop_at=None):
         if mode != "local":
             W.server = Server(W.root)
         W.ghosty_revs = {rv.rid for rv in revs if rv.ghosts}
+        for rv in revs:
+            for pth, (fid, kind, content) in rv.tree.items():
+                if kind == "file":
+                    W.spec_text[(fid, rv.rid)] = content
         W.ext = {h: builders[h].get_branch().repository._format.supports_external_lookups for h in "AB"}
         n = [0]
 
@@ -1016,8 +1037,23 @@ def _flush(ctx, batch):
                 ctx.mismatch(case, impl, m, line=line)
 
 
+def probe_case(ctx):
+    """the smallest history that showed the ghost-parent-inventory defect (fixed in /repo) runs first on every run"""
+    _probe.pop("x", None)
+    x = probe_exclusion()
+    ctx.case(dict(probe="fetch-from-a-source-holding-only-the-inventory-of-a-ghost-parent", exclusion=x))
+    ctx.count("probe:exclusion=" + x)
+    if x != "revpresent":
+        ctx.violation(dict(probe="orphan-parent-inventory"),
+                      "2a fetch from a source that holds the inventory (not the revision) of a ghost parent into an empty "
+                      "repository: text (keep-id, r1) of the copied revisions is not in the target "
+                      "(notes/c03-fetch-corruption/repro_orphan_parent_inventory.py)",
+                      family="chk-stream-excludes-inventory-of-ghost-parent")
+
+
 def run(ctx):
     batch = []
+    probe_case(ctx)
     corpus = os.path.join(env.VERIF, "corpus", "C03")
     if os.path.isdir(corpus):
         import json
@@ -1038,6 +1074,9 @@ def widen(ctx):
 
 
 def replay(ctx, case):
+    if case.get("probe"):
+        probe_case(ctx)
+        return dict(case=case, exclusion=_probe.get("x"), oracle_failures=[v["what"] for v in ctx.violations])
     batch = run_scenario(ctx, tuple(case["key"]), stop_at=case.get("step"))
     if case.get("step") is None:
         return dict(case=case, oracle_failures=[v["what"] for v in ctx.violations])
